@@ -124,7 +124,10 @@ pub fn managed_race(prop: &'static str, seed: u64, close: bool) -> RaceOut {
                 match r {
                     Ok(Some(Ok(o))) => {
                         let _ = gets.fetch_add(1, Ordering::Relaxed);
-                        if !dense && (i + t) % 5 == 0 {
+                        if !dense && !contention && !few && (i + 3 * t) % 11 == 0 {
+                            // taken out of the pool for good (detached once, then destroyed by the caller)
+                            drop(managed::Object::take(o));
+                        } else if !dense && (i + t) % 5 == 0 {
                             held.push(o);
                         }
                     }
